@@ -7,6 +7,7 @@ package main
 // coq/Run_C15.v.
 
 import (
+	"bytes"
 	"encoding/binary"
 	"errors"
 	"fmt"
@@ -21,6 +22,7 @@ import (
 	"github.com/google/uuid"
 	"github.com/semafind/semadb/cluster"
 	"github.com/semafind/semadb/models"
+	"github.com/semafind/semadb/shard"
 )
 
 func init() { subcmds["c15"] = runC15 }
@@ -435,7 +437,14 @@ func c15EndToEnd(rc *runCtx, nseq int, files *c15Files, hist map[string]int, not
 			for _, p := range points {
 				sentIds = append(sentIds, p.Id)
 			}
-			failed, ierr := node.InsertPoints(col, points)
+			infosBefore, err := node.VerifGetShardsInfo(col)
+			if err != nil {
+				return err
+			}
+			// InsertPoints sorts its argument in place: the request order and the id order are kept apart here
+			sorted := append([]models.Point{}, points...)
+			sort.Slice(sorted, func(a, b int) bool { return bytes.Compare(sorted[a].Id[:], sorted[b].Id[:]) < 0 })
+			failed, ierr := node.InsertPoints(col, append([]models.Point{}, points...))
 			refused := errors.Is(ierr, cluster.ErrQuotaReached)
 			if ierr != nil && !refused {
 				return fmt.Errorf("InsertPoints: %w", ierr)
@@ -456,6 +465,50 @@ func c15EndToEnd(rc *runCtx, nseq int, files *c15Files, hist map[string]int, not
 				hist["insert of a stored id"]++
 			}
 			files.add(fmt.Sprintf("CShardCounts %s %s", cListZ(counts), cZ(maxCount)))
+			if !refused && failedPoints == 0 && np > 0 && dupOf == nil {
+				// which positions of the id-sorted batch each shard of the collection holds now (each shard asked directly)
+				colAfter, err := node.GetCollection(user, colId)
+				if err != nil {
+					return err
+				}
+				pos := map[uuid.UUID]int{}
+				ids := make([]uuid.UUID, len(sorted))
+				sizes := make([]int64, len(sorted))
+				for i, p := range sorted {
+					pos[p.Id] = i
+					ids[i] = p.Id
+					sizes[i] = int64(len(p.Data)) + 16
+				}
+				stored := make([]string, len(colAfter.ShardIds))
+				spread := 0
+				for k, sid := range colAfter.ShardIds {
+					var here []int64
+					derr := node.VerifShardManager().DoWithShard(colAfter, sid, func(sh *shard.Shard) error {
+						res, err := sh.SearchPoints(models.SearchRequest{Query: c17IdAny(ids)})
+						if err != nil {
+							return err
+						}
+						for _, x := range res {
+							here = append(here, int64(pos[x.Id]))
+						}
+						return nil
+					})
+					if derr != nil {
+						return fmt.Errorf("reading shard %s: %w", sid, derr)
+					}
+					sort.Slice(here, func(a, b int) bool { return here[a] < here[b] })
+					if len(here) > 0 {
+						spread++
+					}
+					stored[k] = strings.ReplaceAll(cListZ(here), "%Z", "%N")
+				}
+				before := make([]string, len(infosBefore))
+				for k, in := range infosBefore {
+					before[k] = fmt.Sprintf("(%s, %s)", cZ(in.Size), cZ(in.PointCount))
+				}
+				files.add(fmt.Sprintf("CLive %s %s %s %s %s", pList(before), cListZ(sizes), cZ(1<<30), cZ(maxCount), pList(stored)))
+				hist[fmt.Sprintf("stored ranges judged, batch over %s shards", map[bool]string{true: "2+", false: "1"}[spread > 1])]++
+			}
 			note(fmt.Sprintf("insert|%d|%d|%d|%d|%d", before, np, quota, maxCount, failedPoints))
 			switch {
 			case refused:
